@@ -272,6 +272,14 @@ func (e *c27Env) exec(op *c27Op) error {
 		}
 		op.Payload = []int64{dto.BTCSwapInPremiumRatePPM, dto.BTCSwapOutPremiumRatePPM, dto.LBTCSwapInPremiumRatePPM, dto.LBTCSwapOutPremiumRatePPM}
 		op.term = fmt.Sprintf("OAdvert %s %s %s", c27Peer(op.Peer), z4(op.Cap), z4(op.Payload))
+	case "guard":
+		pid, err := peersync.NewPeerID(op.Peer)
+		if err != nil {
+			return fmt.Errorf("generator produced an invalid peer id for guard")
+		}
+		v := peersync.NewPeerGuard(nil, e.ps).PremiumRate(pid, a, o).Value()
+		op.Val = &v
+		op.term = fmt.Sprintf("OGuard %s %s %s %s", c27Peer(op.Peer), CoqZ(op.Asset), CoqZ(op.Oper), CoqZ(v))
 	case "reopen":
 		e.close()
 		if err := e.open(); err != nil {
@@ -458,6 +466,18 @@ func runC27(args []string) error {
 					}
 				}
 				branches[l]++
+			case "guard":
+				l := label(op.Peer, op.Asset, op.Oper, false)
+				if (op.Asset != 1 && op.Asset != 2) || (op.Oper != 1 && op.Oper != 2) {
+					l = "fallback-no-rate"
+					if sh[shadowKey(scopeOf(op.Peer), op.Asset, op.Oper)] || sh[shadowKey("\x00global", op.Asset, op.Oper)] {
+						l = "configured-nonstandard-pair"
+					}
+					if op.Asset == 0 || op.Oper == 0 {
+						l = "fallback-unspecified"
+					}
+				}
+				branches["guard:"+l]++
 			case "ppm":
 				if inOverflowRegion(op.Rate, op.Amount) {
 					branches["ppm:overflow-region"]++
@@ -534,8 +554,10 @@ func runC27(args []string) error {
 				c.Ops = append(c.Ops, &c27Op{Op: "getdefault", Asset: a, Oper: o})
 			case x < 80:
 				c.Ops = append(c.Ops, &c27Op{Op: "compute", Peer: p, Asset: a, Oper: o, Amount: c27AmtIn(r)})
-			case x < 90:
+			case x < 87:
 				c.Ops = append(c.Ops, &c27Op{Op: "advert", Peer: validPeer()})
+			case x < 90:
+				c.Ops = append(c.Ops, &c27Op{Op: "guard", Peer: validPeer(), Asset: a, Oper: o})
 			case x < 95:
 				c.Ops = append(c.Ops, &c27Op{Op: "reopen"})
 			default:
